@@ -2,7 +2,7 @@
 //
 // Domain (everything decoded from the choice tape): rotations from axis-angle (any
 // angle) built with an own double-precision Rodrigues formula, from
-// Matrix3::MakeRotation(yaw,pitch,roll) and from RotVecToMat; scale in [0.05, 20];
+// Matrix3::MakeRotation(yaw,pitch,roll) and from RotVecToMat; scale in [0.01, 100];
 // translations |t| <= 1e5; general matrices R1*diag(s)*R2 with s in [0.2, 5]; point
 // sets of 1..2000 points (cloud, single, collinear, coplanar, cluster+outlier,
 // duplicates, lattice, co-spherical, antipodal); shapes created through
@@ -318,9 +318,20 @@ float decScale(Tape& t) {
 			static const float ex[8] = {0.05f, 20.0f, 0.5f, 2.0f, 0.1f, 10.0f, 1.0001f, 0.9999f};
 			return ex[(sel >> 2) & 7];
 		}
-		default: {
+		case 2: {
 			float s = static_cast<float>(0.05 * std::pow(400.0, t.u16() / 65535.0));
 			return std::min(20.0f, std::max(0.05f, s));
+		}
+		default: {
+			// the wider range [0.01, 100]: small props and huge backdrops; the determinant of the
+			// scaled rotation goes down to 1e-6 while the matrix stays perfectly conditioned
+			uint16_t v = t.u16();
+			if ((v & 15) == 0) {
+				static const float ex[4] = {0.01f, 100.0f, 0.02f, 0.04f};
+				return ex[(v >> 4) & 3];
+			}
+			float s = static_cast<float>(0.01 * std::pow(10000.0, v / 65535.0));
+			return std::min(100.0f, std::max(0.01f, s));
 		}
 	}
 }
@@ -386,6 +397,16 @@ General3 decGeneral(Tape& t) {
 			case 0: si = 1.0; break;
 			case 1: si = (sel & 4) ? 5.0 : 0.2; break;
 			default: si = 0.2 * std::pow(25.0, t.u16() / 65535.0); break;
+		}
+	}
+	// sometimes a uniform factor in [0.01, 100] on top: the condition number stays, the determinant
+	// goes down to 1e-6 x (and up to 1e6 x) that of the unscaled matrix
+	{
+		uint8_t u = t.u8();
+		if ((u & 3) == 3) {
+			double f = (u & 4) ? ((u & 8) ? 0.01 : 100.0) : 0.01 * std::pow(10000.0, t.u16() / 65535.0);
+			for (double& si : s)
+				si *= f;
 		}
 	}
 	g.smin = std::min(s[0], std::min(s[1], s[2]));
@@ -1322,6 +1343,16 @@ const std::vector<CaseFn>& structuredCases() {
 						tb.push_back([=](Run& r) { return lawBounds(vsel, ps, edit, E, r); });
 					}
 		}
+		// appended last (indices of the cases above are part of stored replays): the wider scale range
+		for (float s : {0.01f, 0.02f, 0.04f, 0.0464f, 0.047f, 50.0f, 100.0f})
+			for (auto& t : trans) {
+				Xf X = makeXf({0.6, -0.8, 0}, 2.0, s, t);
+				tb.push_back([=](Run& r) { return lawInverse(X, probe, r); });
+				tb.push_back([=](Run& r) { return lawCompose(X, X, probe, r); });
+				tb.push_back([=](Run& r) { return lawMat4(X, probe, r); });
+				tb.push_back([=](Run& r) { return lawCentral(false, X, 64, r); });
+				tb.push_back([=](Run& r) { return lawCentral(true, X, 64, r); });
+			}
 		return tb;
 	}();
 	return table;
